@@ -428,6 +428,27 @@ def _cancel_timers(machine):
             t.cancel()
 
 
+def _where(thread):
+    import sys
+    import traceback
+
+    frame = sys._current_frames().get(thread.ident)
+    return [f"{fs.filename.split('/')[-1]}:{fs.lineno} {fs.name}" for fs in traceback.extract_stack(frame)[-6:]] if frame is not None else []
+
+
+def _stationary(threads, samples=6, span=3.0):
+    """Every given thread shows the same stack (same statements) in all samples taken over `span` seconds."""
+    import time
+
+    first = {t.ident: _where(t) for t in threads}
+    for _ in range(samples - 1):
+        time.sleep(span / (samples - 1))
+        for t in threads:
+            if not t.is_alive() or _where(t) != first[t.ident]:
+                return False
+    return True
+
+
 def _concurrent(ctx, rounds):
     rng = ctx.rng
     inj = sched.YieldInjector(["secsgem/common/state_machine.py", "secsgem/common/events.py"])
@@ -477,6 +498,13 @@ def _concurrent(ctx, rounds):
                 t.join(20)
             sig, yields, events = inj.end()
             if any(t.is_alive() for t in ths):
+                if _stationary([t for t in ths if t.is_alive()]):
+                    # the engine does no I/O and waits for nobody but its own lock: a request that sits on one statement for
+                    # seconds, 20 s after it was made, waits for a lock that nobody is going to release
+                    ctx.violation("request-never-returns", {
+                        "states": spec.states, "transitions": spec.transitions, "start": start, "requests": reqs, "results": results,
+                        "schedule_seed": seed, "stacks": {t.name: _where(t) for t in ths if t.is_alive()}})
+                    return
                 ctx.unsure("concurrent round did not finish in 20 s")
                 continue
             sigs.add(sig)
@@ -596,6 +624,10 @@ def _concurrent_shipped(ctx, rounds):
             sig, yields, _ = inj.end()
             _cancel_timers(real)
             if any(t.is_alive() for t in ths):
+                if _stationary([t for t in ths if t.is_alive()]):
+                    ctx.violation("request-never-returns", {"machine": label, "state": st, "requests": reqs, "results": results,
+                                                            "schedule_seed": seed, "stacks": {t.name: _where(t) for t in ths if t.is_alive()}})
+                    return
                 ctx.unsure("concurrent shipped-machine round did not finish in 20 s")
                 continue
             ctx.count("oracle.concurrent_rounds_shipped")
